@@ -75,7 +75,19 @@ def Ty.nullableAnn : Ty → Bool
   | .any | .none | .opt _ => true
   | _ => false
 
+def FieldDef.defaultIsNone (f : FieldDef) : Bool :=
+  match f.default with
+  | some .none => true
+  | _ => false
+
 def fieldCouldBeNone (f : FieldDef) (t : Ty) : Bool :=
-  t.nullableAnn || (match f.default with | some .none => true | _ => false)
+  t.nullableAnn || f.defaultIsNone
+
+/-- `value == default` of the omit_default comparison (a None default is handled apart) -/
+def FieldDef.eqDefault (f : FieldDef) (O : Oracle) (x : V) : Bool :=
+  match f.default with
+  | some .none => false
+  | some dv => O.eq x dv
+  | none => false
 
 end Mashu
